@@ -8,7 +8,7 @@ if ! git -C "$WT/wt" apply "$PATCH" 2>"$WT/apply.err"; then
   if ! (cd "$WT/wt" && patch -p1 --no-backup-if-mismatch < "$PATCH" >"$WT/apply.err" 2>&1); then echo "PATCH-DOES-NOT-APPLY $PATCH"; cat "$WT/apply.err"; git -C /repo worktree remove --force "$WT/wt"; rm -rf "$WT"; exit 2; fi
 fi
 for P in "$@"; do
-  VERIF_REPO="$WT/wt" VERIF_EVIDENCE_DIR="$WT/ev" /verif/check "$P" --tier "$TIER" > "$WT/$P.log" 2>&1
+  VERIF_REPO="$WT/wt" VERIF_EVIDENCE_DIR="$WT/ev" VERIF_REPLAY_DIR="$WT/ev" /verif/check "$P" --tier "$TIER" > "$WT/$P.log" 2>&1
   RC=$?
   echo "== $P rc=$RC $(grep -E '^(VIOLATION|INCONCLUSIVE|HARNESS-ERROR|HELD)' "$WT/$P.log" | head -2 | tr '\n' ' ')"
   grep -E "^  violation mechanism" "$WT/$P.log" | head -5
